@@ -157,48 +157,57 @@ ALL_FLAGS = tuple((b, f, d) for b in (False, True) for f in (0, 1, 2) for d in (
 
 
 def gen_seq(A, ctx, w, maxlen=None):
-    """all statement sequences of total weight exactly w (tuple of tuples), simplest first"""
+    """all statement sequences of total weight exactly w (tuple of tuples), simplest first; memoised list"""
     if maxlen is None:
         maxlen = A.maxlen
     key = ("seq", ctx, w, maxlen)
     r = A._memo.get(key)
     if r is None:
-        r = []
-        if w == 0:
-            r.append(())
-        elif maxlen > 0:
-            for w1 in range(1, w + 1):
-                firsts = gen_stmt(A, ctx, w1)
-                if not firsts:
-                    continue
-                rests = gen_seq(A, ctx, w - w1, maxlen - 1)
-                for s in firsts:
-                    for rest in rests:
-                        r.append((s,) + rest)
-        A._memo[key] = r
+        r = A._memo[key] = list(iter_seq(A, ctx, w, maxlen))
     return r
+
+
+def iter_seq(A, ctx, w, maxlen=None):
+    """lazy version of gen_seq: only parts of weight < w are materialised"""
+    if maxlen is None:
+        maxlen = A.maxlen
+    if w == 0:
+        yield ()
+        return
+    if maxlen <= 0:
+        return
+    for w1 in range(1, w):
+        firsts = gen_stmt(A, ctx, w1)
+        if not firsts:
+            continue
+        rests = gen_seq(A, ctx, w - w1, maxlen - 1)
+        for s in firsts:
+            for rest in rests:
+                yield (s,) + rest
+    for s in iter_stmt(A, ctx, w):
+        yield (s,)
 
 
 def gen_stmt(A, ctx, w):
     key = ("stmt", ctx, w)
     r = A._memo.get(key)
-    if r is not None:
-        return r
-    r = []
+    if r is None:
+        r = A._memo[key] = list(iter_stmt(A, ctx, w))
+    return r
+
+
+def iter_stmt(A, ctx, w):
     depth, in_def, caller, in_for, in_block = ctx
     if w == 1 and isinstance(caller, tuple) and caller[0]:
         for m in A.cb_modes:
-            r.append(("cb", m))
+            yield ("cb", m)
         if caller[2]:
-            r.append(("cn",))
+            yield ("cn",)
     if depth > 0:
         for form in A.forms:
             fc = A.form_cost.get(form, 0)
             placements = ("top", "nested") if (A.nested and in_def and form in BARE_FORMS) else ("top",)
             for fl in A.flags:
-                left = w - 1 - fc - A.cost_flags(fl)
-                if left < 0:
-                    continue
                 for pl in placements:
                     left = w - 1 - fc - A.cost_flags(fl) - (A.nested_cost if pl == "nested" else 0)
                     if left < 0:
@@ -206,7 +215,7 @@ def gen_stmt(A, ctx, w):
                     if form in EXPR_FORMS:
                         cctx = (depth - 1, True, (False, 0, False), False, False)
                         for cb in gen_seq(A, cctx, left):
-                            r.append(("call", form, fl, pl, None, cb))
+                            yield ("call", form, fl, pl, None, cb)
                     else:
                         for ba in A.bodyargs:
                             for named in ((False, True) if A.named else (False,)):
@@ -227,17 +236,15 @@ def gen_stmt(A, ctx, w):
                                         for c in callee:
                                             for b in bodies:
                                                 for nb in nbodies:
-                                                    r.append(("call", form, fl, pl, (ba, nb, b), c))
+                                                    yield ("call", form, fl, pl, (ba, nb, b), c)
     if A.loops and not in_for and w >= 2:
         fctx = (depth, in_def, caller, True, in_block)
         for b in gen_seq(A, fctx, w - 1):
-            r.append(("for", b))
+            yield ("for", b)
     if A.blocks and not in_block and w >= 2:
         bctx = (depth, in_def, None, in_for, True)
         for b in gen_seq(A, bctx, w - 1):
-            r.append(("block", 1, b))
-    A._memo[key] = r
-    return r
+            yield ("block", 1, b)
 
 
 def top_ctx(depth):
@@ -245,7 +252,11 @@ def top_ctx(depth):
 
 
 def count_programs(A, depth, w):
-    return len(gen_seq(A, top_ctx(depth), w))
+    return sum(1 for _ in iter_seq(A, top_ctx(depth), w))
+
+
+def iter_programs(A, depth, w):
+    return iter_seq(A, top_ctx(depth), w)
 
 
 # ---------------------------------------------------------------------------
@@ -271,6 +282,8 @@ def skel_stats(seq):
                         best[3] += 1
                     if content[1] is not None:
                         walk(content[1], d)
+                        if len(content) > 3 and any(content[3]):
+                            best[3] += 1
                     walk(content[2], d)
                 if nfl >= 2:
                     best[3] += 1
@@ -287,7 +300,7 @@ def skel_stats(seq):
 # ---------------------------------------------------------------------------
 # finaliser: skeleton -> program IR
 
-NAME_POOL = ["d", "f", "q", "m"]
+NAME_POOL = ["d", "p", "q", "m"]
 TEXT_POOL = ["B", "Z", "é", "ж"]
 
 
@@ -377,10 +390,11 @@ class _Fin:
             args = str(idx)
         c = None
         if content is not None:
-            ba, nb, b = content
+            ba, nb, b = content[:3]
+            nfl = content[3] if len(content) > 3 else (False, 0, False)
             named = []
             if nb is not None:
-                named.append(self.newdef("named", "", (False, 0, False), nb, (False, 0, False), "{", "}", outer_a=scope["a"]))
+                named.append(self.newdef("named", "", nfl, nb, (False, 0, False), "{", "}", outer_a=scope["a"]))
             body = [["text", "%s%d<" % (self.txt, idx)]]
             if ba >= 1:
                 body.append(["expr", "x"])
